@@ -84,7 +84,8 @@ type x03Conc struct {
 	PrivKey   []byte            `json:"privateKey"`
 	BadKeyLen int               `json:"badKeyLen"`
 	UIDs      map[string][]byte `json:"uids"` // b1 b2 b3 admin
-	BadUIDLen int               `json:"badUIDLen"`
+	BadUIDLen int               `json:"badUIDLen"`   // length of the odd BypassUID entry
+	BadAdmLen int               `json:"badAdminLen"` // length of the odd AdminUID
 	KeepAlive int               `json:"keepAlive"`
 	PortP     int               `json:"portP"`
 	PortQ     int               `json:"portQ"`
@@ -125,8 +126,12 @@ func x03Concretise(row *x03Row, variant uint64) x03Conc {
 		c.UIDs["admin"][15] = 0
 	}
 	c.BadUIDLen = picki(1, 8, 15)
-	if row.Cfg["BypassUID"] == "long" || row.Cfg["AdminUID"] == "long" {
+	if row.Cfg["BypassUID"] == "long" {
 		c.BadUIDLen = picki(17, 24, 32)
+	}
+	c.BadAdmLen = picki(1, 8, 15)
+	if row.Cfg["AdminUID"] == "long" {
+		c.BadAdmLen = picki(17, 24, 32)
 	}
 	switch row.Cfg["KeepAlive"] {
 	case "neg":
@@ -152,6 +157,13 @@ func x03Resize(b []byte, n int) []byte {
 			out[i] = byte(0xA0 + i)
 		}
 	}
+	return out
+}
+
+// x03Resize32: the odd key as a 32-byte array would hold it (cut, or continued with zeros)
+func x03Resize32(key []byte, n int) []byte {
+	out := make([]byte, 32)
+	copy(out, x03Resize(key, n))
 	return out
 }
 
@@ -282,7 +294,7 @@ func x03Options(row *x03Row, c *x03Conc, dbDir string) map[string]any {
 	case "set":
 		o["AdminUID"] = x03B64(c.UIDs["admin"])
 	case "short", "long":
-		o["AdminUID"] = x03B64(x03Resize(c.UIDs["admin"], c.BadUIDLen))
+		o["AdminUID"] = x03B64(x03Resize(c.UIDs["admin"], c.BadAdmLen))
 	case "badb64":
 		o["AdminUID"] = "---Admin UID here (optional)---"
 	default:
@@ -577,8 +589,9 @@ func x03Judge(row *x03Row, c *x03Conc, obs *x03Obs, dbPath string, stat func(str
 	}
 	field("PrivateKey", "PrivateKey", "", e.PrivKey != x03U, fmt.Sprintf("%x", c.PrivKey), gotPv)
 	if e.PrivKey == x03U {
-		stat(fmt.Sprintf("undoc:PrivateKey=%s->%d-byte key %s", row.Cfg["PrivateKey"], c.BadKeyLen,
-			map[bool]string{true: "cut to 32 bytes", false: "zero-padded to 32 bytes"}[c.BadKeyLen > 32]))
+		stat(fmt.Sprintf("undoc:PrivateKey=%s->key %s, StaticPv=%s", row.Cfg["PrivateKey"],
+			map[bool]string{true: "cut to 32 bytes", false: "zero-padded to 32 bytes"}[c.BadKeyLen > 32],
+			map[bool]string{true: "that", false: "something else"}[gotPv == fmt.Sprintf("%x", x03Resize32(c.PrivKey, c.BadKeyLen))]))
 	}
 	// AdminUID
 	wantAdmin := ""
@@ -602,8 +615,8 @@ func x03Judge(row *x03Row, c *x03Conc, obs *x03Obs, dbPath string, stat func(str
 	sort.Strings(gotSet)
 	field("BypassUID", "BypassUID", tag, bypassDoc, wantSet, gotSet)
 	if !bypassDoc {
-		stat(fmt.Sprintf("undoc:BypassUID=%s->%d unrestricted users from a list with a %d-byte entry", row.Cfg["BypassUID"], len(gotSet),
-			map[bool]int{true: 15, false: c.BadUIDLen}[row.Cfg["BypassUID"] == "goodshort"]))
+		stat(fmt.Sprintf("undoc:BypassUID=%s->the odd entry, %s to 16 bytes, is an unrestricted user=%v", row.Cfg["BypassUID"],
+			map[bool]string{true: "cut", false: "zero-padded"}[row.Cfg["BypassUID"] == "long"], x03OddMember(row, c, sta)))
 	}
 	// KeepAlive: handed to net.Dialer.KeepAlive, for which "disabled" is any negative duration
 	gotKA := time.Duration(0)
@@ -671,16 +684,28 @@ func x03Judge(row *x03Row, c *x03Conc, obs *x03Obs, dbPath string, stat func(str
 	// a wrong-length AdminUID, if accepted, must not make anybody an unrestricted user
 	if bypassDoc && (row.Cfg["AdminUID"] == "short" || row.Cfg["AdminUID"] == "long") {
 		var padded [16]byte
-		copy(padded[:], x03Resize(c.UIDs["admin"], c.BadUIDLen))
+		copy(padded[:], x03Resize(c.UIDs["admin"], c.BadAdmLen))
 		if !bytes.Equal(padded[:], c.UIDs["admin"]) || !x03Has(e.Bypass, "admin") {
 			got := sta.IsBypass(padded[:])
-			tab("IsBypass(%x) [the %d-byte AdminUID cut/padded to 16 bytes]: expected false observed %v", padded, c.BadUIDLen, got)
+			tab("IsBypass(%x) [the %d-byte AdminUID cut/padded to 16 bytes]: expected false observed %v", padded, c.BadAdmLen, got)
 			if got {
-				add("bypass:membership"+tag, "IsBypass(%x) = true: the %d-byte AdminUID, cut/padded to 16 bytes, became an unrestricted user", padded, c.BadUIDLen)
+				add("bypass:membership"+tag, "IsBypass(%x) = true: the %d-byte AdminUID, cut/padded to 16 bytes, became an unrestricted user", padded, c.BadAdmLen)
 			}
 		}
 	}
 	return
+}
+
+// x03OddMember: is the cut / zero-padded form of the BypassUID entry of another length in the processed set?
+func x03OddMember(row *x03Row, c *x03Conc, sta *State) bool {
+	odd := x03Resize(c.UIDs["b1"], c.BadUIDLen)
+	if row.Cfg["BypassUID"] == "goodshort" {
+		odd = x03Resize(c.UIDs["b2"], 15)
+	}
+	var k [16]byte
+	copy(k[:], odd)
+	_, ok := sta.BypassUID[k]
+	return ok
 }
 
 func x03Has(xs []string, x string) bool {
